@@ -341,7 +341,13 @@ def check(case):
                 new = "N%d" % (seed % 97)
                 if e.kind == "mol" and top_group_size(e.top_group) == 1 and \
                         not any(x.owner == ei for x in pool):
-                    if flag:
+                    if flag and seed % 2:
+                        names = ["%s%d" % (new[:3], k) for k in range(len(e.groups))]
+                        o.resnames = list(names)
+                        for g, nm_ in zip(e.groups, names):
+                            for c in g:
+                                model.cells[c]["resname"] = nm_
+                    elif flag:
                         o.resnames = new
                         for c in e.cells:
                             model.cells[c]["resname"] = new
